@@ -417,8 +417,14 @@ def check_trim_twin(case, ctx):
         on_v = any(abs(cx - x_) <= 1e-6 for x_ in xs_) and ys_[0] - 1e-6 <= cy <= ys_[-1] + 1e-6
         on_h = any(abs(cy - y_) <= 1e-6 for y_ in ys_) and xs_[0] - 1e-6 <= cx <= xs_[-1] + 1e-6
         return on_v or on_h or tri_area(t_) <= 1e-12
-    D0 = [t_ for t_ in T0 if t_ not in T1 and not tie(t_)]
-    D1 = [t_ for t_ in T1 if t_ not in T0 and not tie(t_)]
+    # (the coordinates were rounded to 7 decimals for sorting; an intersection vertex at x.xxxxxxx5 is rounded either way by the last
+    # bit, so triangles are matched within 3e-7, not by equality of the rounded values - thorough sweep after the fifth hunt)
+    def same_tri(t_, u_):
+        import itertools as _it
+        return any(all(abs(a_ - b_) <= 3e-7 for p_, q_ in zip(t_, perm_) for a_, b_ in zip(p_, q_)) for perm_ in _it.permutations(u_))
+    S0, S1 = set(T0), set(T1)
+    D0 = [t_ for t_ in T0 if t_ not in S1 and not tie(t_) and not any(same_tri(t_, u_) for u_ in T1)]
+    D1 = [t_ for t_ in T1 if t_ not in S0 and not tie(t_) and not any(same_tri(t_, u_) for u_ in T0)]
     ties_ = sum(tri_area(t_) for t_ in T0 if t_ not in T1 and tie(t_)) - sum(tri_area(t_) for t_ in T1 if t_ not in T0 and tie(t_))
     if ties_ != 0.0:
         ctx.count('trim-twin-tie-triangles-ignored')
